@@ -2,7 +2,12 @@
 EXTENDS CrossVM, Json
 BytesA == {<<>>, <<1, 2>>}
 AddrA == {[i \in 1..20 |-> i], Rep(255, 20)}
-IntA == {Rep(255, 16), Rep(0, 15) \o <<128>>}          \* -1, -2^127
+\* 16-byte little-endian two's complement: -1, -2^127, 2^127-1, and the 64-bit boundaries
+\* 2^63, -2^63, 2^64-1, -(2^64-1), 2^64, -2^64 (a 64-bit fast path in the encoder must not truncate them)
+IntA == {Rep(255, 16), Rep(0, 15) \o <<128>>, Rep(255, 15) \o <<127>>,
+         Rep(0, 7) \o <<128>> \o Rep(0, 8), Rep(0, 7) \o <<128>> \o Rep(255, 8),
+         Rep(255, 8) \o Rep(0, 8), <<1>> \o Rep(0, 7) \o Rep(255, 8),
+         Rep(0, 8) \o <<1>> \o Rep(0, 7), Rep(0, 8) \o Rep(255, 8)}
 HashA == {[i \in 1..32 |-> 32 - i], Rep(0, 32)}
 AtomsFull == {Atom("bytes", b) : b \in BytesA} \cup {Atom("str", b) : b \in {<<>>, <<104, 105>>}}
              \cup {Atom("addr", b) : b \in AddrA} \cup {Atom("bool", <<b>>) : b \in {0, 1}}
